@@ -134,6 +134,10 @@ class StorageBase(metaclass=ABCMeta):
             time (float, optional):
                 The time point
         """
+        if self.write_mode == "readonly":
+            msg = "Cannot write data in readonly mode"
+            raise RuntimeError(msg)
+
         if time is None:
             time = 0 if len(self) == 0 else self.times[-1] + 1
 
